@@ -19,7 +19,7 @@ LEVEL = "exploration"
 ENGINE = "enum"
 TECHNIQUE = "bounded exhaustive enumeration of domain configurations against a plain-Python visibility evaluator"
 RULE = (
-    "a configuration is (repository masks, profile stack variant incl. -atom removals and profile unmasks, user "
+    "a configuration is (repository masks, profile stack variant incl. -atom removals (of profile masks and of repository-level masks, in base, in child, in both with re-add) and profile unmasks, user "
     "package.mask, user package.unmask, ACCEPT_KEYWORDS, user and profile package.accept_keywords, ACCEPT_LICENSE, "
     "package.license); every configuration of the tier's product is materialised on tmpfs, a real domain is built on it "
     "and every one of 120 packages (4 identity classes a/p-1*, a/p-2*, a/q, b/r x 6 KEYWORDS values x 5 LICENSE "
@@ -32,7 +32,9 @@ RULE = (
     "distinct_nontrivial counts classes observed."
 )
 ASSUMPTIONS = [
-    "Excl: a profile '-atom' line whose atom is also a *repository* mask (whether profile removals reach repository masks is not stated); such configurations are skipped",
+    "mask order: repository-level masks seed the incremental stack, every profile node (parent first) applies its '-atom' "
+    "removals and then its additions on top, user package.mask is added and package.unmask applied last; so a profile "
+    "'-atom' lifts a repository-level mask with the same atom text",
     "Excl: negated tokens in package.accept_keywords / ACCEPT_KEYWORDS, profile package.keywords, the deprecated user package.keywords file",
     "Excl: ACCEPT_LICENSE unset (no default is stated); USE-conditional LICENSE; nested license groups; LICENSE empty",
     "atoms limited to cat/pkg, ~cat/pkg-ver, =cat/pkg-ver-rN and cat/* (user files only); '-atom' removal is by identical atom text",
@@ -43,10 +45,10 @@ ASSUMPTIONS = [
     "both repositories are registered with the domain and filtered through the same domain object",
 ]
 BOUNDS = {
-    "quick": "all 360 mask configurations x 3 keyword x 2 license configurations; 6 mask x all 120 keyword x 2 license; "
-    "6 mask x 3 keyword x all 42 license configurations; every configuration judged on 120 packages; two-repository part: "
+    "quick": "all 660 mask configurations x 3 keyword x 2 license configurations; 7 mask x all 120 keyword x 2 license; "
+    "7 mask x 3 keyword x all 42 license configurations; every configuration judged on 120 packages; two-repository part: "
     "8 ACCEPT_LICENSE x 7 package.license x 2 evaluation orders = 112 configurations judged on 2 x 120 packages",
-    "thorough": "all 360 mask x all 120 keyword x 4 license; all 360 mask x 6 keyword x all 42 license; "
+    "thorough": "all 660 mask x all 120 keyword x 4 license; all 660 mask x 6 keyword x all 42 license; "
     "24 mask x all 120 keyword x all 42 license configurations; every configuration judged on 120 packages; two-repository "
     "part: 2 mask x 3 keyword x 8 ACCEPT_LICENSE x 7 package.license x 2 evaluation orders = 672 configurations on 2 x 120 packages",
 }
@@ -83,6 +85,12 @@ PROFILES = [
     {"name": "profile-unmask", "base": {"package.mask": "~a/p-2\n"}, "child": {"package.unmask": "a/p\n"}},
     {"name": "unmask-removed", "base": {"package.mask": "~a/p-2\n", "package.unmask": "a/p\n"}, "child": {"package.unmask": "-a/p\n"}},
     {"name": "removal-before-add", "base": {"package.mask": "-a/p\n"}, "child": {"package.mask": "a/p\n"}},
+    # negations that have nothing to remove in the profile itself: they lift the repository-level mask a/p / ~a/p-2
+    # when the repository has it (and are no-ops otherwise)
+    {"name": "neg-in-base", "base": {"package.mask": "-a/p\n"}, "child": {}},
+    {"name": "neg-in-child", "base": {}, "child": {"package.mask": "-a/p\n"}},
+    {"name": "neg-in-both-readd-in-child", "base": {"package.mask": "-a/p\n"}, "child": {"package.mask": "-a/p\na/p\n"}},
+    {"name": "neg-versioned-in-child", "base": {}, "child": {"package.mask": "-~a/p-2\n"}},
 ]
 USER_MASK = ["", "a/p\n", "~a/p-2\n", "a/*\n"]
 USER_UNMASK = ["", "a/p\n", "~a/p-2\n", "a/*\n", "=a/p-2-r1\n"]
@@ -119,22 +127,9 @@ def mask_configs():
     out = []
     for rm in range(len(REPO_MASKS)):
         for pv in range(len(PROFILES)):
-            removed = _profile_removals(PROFILES[pv])
-            if removed & set(REPO_MASKS[rm]):
-                continue  # Excl: profile removal aimed at a repository mask
             for um in range(len(USER_MASK)):
                 for uu in range(len(USER_UNMASK)):
                     out.append((rm, pv, um, uu))
-    return out
-
-
-def _profile_removals(prof):
-    out = set()
-    for node in ("base", "child"):
-        for fn in ("package.mask",):
-            for line in prof[node].get(fn, "").split():
-                if line.startswith("-"):
-                    out.add(line[1:])
     return out
 
 
@@ -220,6 +215,21 @@ def _stack(nodes, fn):
     return cur
 
 
+def _stack_masks(repo_masks, nodes):
+    """The incremental mask stack: repository-level masks first, then every profile node (parent first), each node's
+    '-atom' removals before its additions.  -> [(atom, 'repo' | 'profile')]"""
+    cur = [(a, "repo") for a in repo_masks]
+    for files in nodes:
+        lines = files.get("package.mask", "").split()
+        for ln in lines:
+            if ln.startswith("-"):
+                cur = [(a, src) for a, src in cur if a != ln[1:]]
+        for ln in lines:
+            if not ln.startswith("-") and all(a != ln for a, _ in cur):
+                cur.append((ln, "profile"))
+    return cur
+
+
 def _entries(text):
     out = []
     for line in text.splitlines():
@@ -290,7 +300,7 @@ def prepare(cfg):
         ents += _entries(files.get("package.accept_keywords", ""))
     return {
         "nodes": nodes,
-        "prof_masks": _stack(nodes, "package.mask"),
+        "stacked_masks": _stack_masks(cfg["repo_masks"], nodes),
         "prof_unmasks": _stack(nodes, "package.unmask"),
         "user_masks": cfg["user"].get("package.mask", "").split(),
         "user_unmasks": cfg["user"].get("package.unmask", "").split(),
@@ -309,18 +319,25 @@ def reference(cfg, pkg, pre=None, groups=None):
         pre = prepare(cfg)
     # ---- masks
     nodes = pre["nodes"]
-    prof_masks = pre["prof_masks"]
+    stacked = pre["stacked_masks"]
     prof_unmasks = pre["prof_unmasks"]
     user_masks = pre["user_masks"]
     user_unmasks = pre["user_unmasks"]
     src = None
-    for name, lst in (("repo", cfg["repo_masks"]), ("profile", prof_masks), ("user", user_masks)):
+    # order: repository masks -> profile nodes (negations then additions, per node, parent first) -> user mask/unmask
+    for name, lst in (
+        ("repo", [a for a, s_ in stacked if s_ == "repo"]),
+        ("profile", [a for a, s_ in stacked if s_ == "profile"]),
+        ("user", user_masks),
+    ):
         if any(ref_atom_match(a, pkg) for a in lst):
             src = name if src is None else "several"
     if src is None:
         masked = False
         why["mask"] = "unmasked-none"
-        if _profile_removed_hit(nodes, pkg):
+        if any(ref_atom_match(a, pkg) for a in cfg["repo_masks"]):
+            why["mask"] = "repo-mask-removed-by-profile"
+        elif _profile_removed_hit(nodes, pkg):
             why["mask"] = "mask-removed-by-profile"
     else:
         un = None
@@ -601,7 +618,7 @@ def _parts(tier):
     ksmall = [(0, 0, 0), (1, 1, 1), (0, 2, 0)]
     lsmall = [(0, 0), (1, 1)]
     if tier == "quick":
-        msmall = [m for m in M if m in {(0, 0, 0, 0), (0, 1, 0, 1), (1, 0, 2, 0), (0, 2, 1, 3), (2, 4, 0, 0), (0, 5, 3, 4)}]
+        msmall = [m for m in M if m in {(0, 0, 0, 0), (0, 1, 0, 1), (1, 0, 2, 0), (0, 2, 1, 3), (2, 4, 0, 0), (0, 5, 3, 4), (1, 8, 0, 0)}]
         return [("masks", M, ksmall, lsmall), ("keywords", msmall, K, lsmall), ("licenses", msmall, ksmall, L)]
     ksmall_t = ksmall + [(2, 0, 0), (3, 5, 1), (4, 6, 2)]
     lsmall_t = lsmall + [(3, 3), (4, 6)]
